@@ -360,6 +360,15 @@ class Engine:
         self.claims.append(Claim(name, status, dt, model, key=key, note=note))
         return r == z3.unsat
 
+    def record_claim(self, name, status, seconds, model=None, note=None):
+        """Record the verdict of a query discharged by a dedicated solver instance (Engine B)."""
+        prefix = tuple(self.decisions[: self.pos])
+        occ = self._occ.get((prefix, name), 0)
+        self._occ[(prefix, name)] = occ + 1
+        self.claim_queries += 1
+        self.solver_time += seconds
+        self.claims.append(Claim(name, status, seconds, model, key=(prefix, name, occ), note=note))
+
     def reachable(self, name="reach"):
         """Vacuity twin: the claim ``False`` here must come back sat."""
         if self.concrete is not None:
